@@ -21,7 +21,7 @@ EXPLANATION = (
     "source/target chunkings, region offsets and lengths within the bound"
 )
 TRUSTED_BASE = c01.TRUSTED_BASE
-ASSUMPTIONS = ["the aliasing side of store (one lazy source stored to several targets, lazy vs eager histories) is an object-graph history with no symbolic domain: outside the claim (see DESIGN.md C10/C11)"]
+ASSUMPTIONS = ["eager-vs-lazy HISTORIES of store calls (store, compute something else, store again ...) are object-graph histories with no symbolic domain: outside the claim (see DESIGN.md C10/C11); one source stored to two targets in one call / two lazy calls is decided (fill[one-source,two-targets])"]
 
 
 def _oracle(out, info, g, src_term):
@@ -188,6 +188,42 @@ def h_sharded_inner(n, c, ic, k, a, use_region, g):
     _oracle(out, info, g, _x)
 
 
+def h_two_targets(n, c, tc, k1, k2, lazy, which, g):
+    """ONE source stored to TWO targets in one store() call (or two lazy store calls): each target -- an existing array with its own
+    chunking (kind 0) or a path (kind 1) -- must be written by exactly one operation of the combined plan and receive source element g"""
+    import cubed
+    from cubed.core.plan import arrays_to_plan
+
+    c01._start()
+    sx.assume(c <= n)
+    sx.assume(tc <= n)
+    sx.assume(g < n)
+    x = G.stub_array("x", (n,), (c,))
+    lz = sx.conc(lazy)
+    src = c01._xp().negative(x) if lz else x
+    kinds = (sx.conc(k1), sx.conc(k2))
+    tgts = [G.ZStub((n,), (tc,), "float64") if k == 0 else f"/nonexistent-verif/two-targets-{i}.zarr" for i, k in enumerate(kinds)]
+    if lz == 2:  # two separate lazy store calls on the same source object
+        res = tuple(cubed.store([src], [t], compute=False)[0] for t in tgts)
+    else:
+        res = cubed.store([src, src], tgts, compute=False)
+    dag = arrays_to_plan(*res).dag
+    w = sx.conc(which)
+    tgt = tgts[w]
+    writers = []
+    for opname, op in G.all_ops(dag):
+        cfg = op.pipeline.config
+        for an, wp in getattr(cfg, "writes_map", {}).items():
+            arr = wp.array
+            if arr is tgt or (isinstance(tgt, str) and str(getattr(arr, "store", None)) == tgt):
+                writers.append((opname, an))
+    sx.require(len(writers) >= 1, "target-written-by-no-operation", f"target {w} ({'path' if kinds[w] else 'existing array'}) of {kinds}, lazy={lz}")
+    sx.require(len(writers) == 1, "target-written-by-several-operations", f"target {w}: {writers}")
+    t = G.Evaluator(dag).elem_of(writers[0][1], (g,))
+    sx.require(not anp.has_uninit(t) and t != ("unwritten",), "target-element-not-written", f"target {w} element {g}: {t}")
+    sx.require(anp.terms_equal(t, _negx(g) if lz else _x(g)), "target-element-has-wrong-source", f"target {w} element {g}: {t}")
+
+
 def h_pairing(ns, nt, nr, bad):
     """store() argument pairing: lengths of sources / targets / regions must agree, sources must be cubed arrays"""
     import cubed
@@ -239,6 +275,9 @@ def obligations(tier):
     o.append(Obl("fill[sharded-target,inner-chunks]", h_sharded_inner, [("n", 1, 6), ("c", 1, 6), ("ic", 1, 2), ("k", 1, 3), ("a", 0, 6), ("use_region", 0, 1), ("g", 0, 12)],
                  bounds="n, source chunk <= 6; inner chunks 1..2, shards of 1..3 inner chunks; whole store or a region at offset 0..6 (accepted only when shard-aligned)",
                  witness_rule=lambda m: m["k"] >= 2 and m["a"] >= 1, **common))
+    o.append(Obl("fill[one-source,two-targets]", h_two_targets, [("n", 1, R), ("c", 1, R), ("tc", 1, R), ("k1", 0, 1), ("k2", 0, 1), ("lazy", 0, 2), ("which", 0, 1), ("g", 0, R)],
+                 bounds=f"n, source chunk, target chunk <= {R}; each target an existing array or a path; source a leaf, an uncomputed array, or an uncomputed array stored by two lazy store() calls",
+                 witness_rule=lambda m: m["lazy"] >= 1, **common))
     o.append(Obl("pairing", h_pairing, [("ns", 0, 3), ("nt", 0, 3), ("nr", 0, 4), ("bad", 0, 1)], bounds="0..3 sources/targets, regions None or a list of 0..3", **common))
 
     def twin(**kw):
